@@ -305,6 +305,23 @@ def run():
                               'clause': v, 'site': site, 'classes': classes})
                 if len(seen_inputs) >= 40:
                     break
+    # static configuration: render-map coverage of every configuration (drift only; a real failure shows as an outcome above)
+    m = core.impl()
+    cov_recs, cov_names = [], []
+    from mistletoe import block_token, span_token
+    for cfg in CONFIGS:
+        R = _get(cfg[1], cfg[2])
+        try:
+            with R(**cfg[3]) as r:
+                active = [c.__name__ for c in block_token._token_types] + [c.__name__ for c in span_token._token_types]
+                keys = sorted(r.render_map)
+            cov_recs.append({'law': 'render-map', 'active': active, 'keys': keys})
+            cov_names.append(cfg[0])
+        except Exception:
+            pass
+    cv, st3 = core.judge('TotalityTrace', 'TotalityTrace.cfg', cov_recs, ck.work)
+    ck.add_tlc(st3)
+    ck.extra['impl_model_drift'] = {'render_map_coverage': {n: v for n, v in zip(cov_names, cv) if v != 'ok'}}
     kc = {}
     for kd in kinds:
         kc[kd.split(':')[0]] = kc.get(kd.split(':')[0], 0) + 1
